@@ -2,6 +2,7 @@ import PystogVerif.Props.C19
 import PystogVerif.Props.C18Gen
 import PystogVerif.Refine.Workflow
 import PystogVerif.Refine.Merge
+import PystogVerif.Refine.Config
 
 /-!
 # C19 on the code generated from `cli.py`
@@ -15,6 +16,60 @@ set_option linter.unusedSimpArgs false
 noncomputable section
 namespace C19Gen
 open StogRt GenStog RefineWorkflow RefineMerge
+
+/-- P (generated code): `utils.create_domain` (regenerated) is the hand model's r grid, so `C19.P_rgrid_shape` — first point Rmin, constant step,
+    last point at or beyond Rmax — holds of it; `__update_dr` stores exactly that grid -/
+theorem P_gen_create_domain (rmin rmax rdelta : ℝ) :
+    GenStog.create_domain rmin rmax rdelta = Config.createDomain rmin rmax rdelta := rfl
+
+theorem P_gen_update_dr (g : GState ℝ) :
+    GenStog.update_dr g = .ok { g with dr := Config.createDomain g.rmin g.rmax g.rdelta } := rfl
+
+/-- P (generated code): `StoG(**kwargs)` — the regenerated `__init__`, `__kwargs2attr` and validating setters — succeeds exactly when the
+    hand model's `Config.settings` does (same error otherwise) and then holds the hand model's settings, an r grid that is `createDomain`
+    of the final Rmin, Rmax, Rdelta, and the given (or default) stem name and post-merge options -/
+theorem P_gen_construct (kw : KwargsJ ℝ) : RefineConfig.Refines kw := RefineConfig.construct_refines kw
+
+/-- P (generated code): every given option lands in its attribute with the given value -/
+theorem P_gen_key_reaches_attribute (kw : KwargsJ ℝ) (g : GState ℝ) (h : GenStog.construct kw = .ok g) :
+    (∀ v, kw.Rmin = some v → g.rmin = v) ∧ (∀ v, kw.Rmax = some v → g.rmax = v) ∧ (∀ v, kw.Rdelta = some v → g.rdelta = v) ∧
+    (∀ n, kw.Rdelta = none → kw.Rpoints = some n → g.rdelta = g.rmax / n) ∧
+    (∀ v, kw.NumberDensity = some v → g.density = v) ∧ (∀ v, kw.bcoh = some v → g.bcoh_sqrd = v) ∧ (∀ v, kw.btot = some v → g.btot_sqrd = v) ∧
+    (∀ b, kw.OmittedXrangeCorrection = some (JVal.bool b) → g.low_q_correction = b) ∧
+    (∀ b, kw.LorchFlag = some (JVal.bool b) → g.lorch_flag = b) ∧
+    (∀ s, kw.Outputs.bind (·.StemName) = some s → g.stem_name = s) ∧
+    (∀ m, kw.Merging = some m → g.merged_opts = m.opts) ∧
+    g.dr = Config.createDomain g.rmin g.rmax g.rdelta := by
+  have hR := RefineConfig.construct_refines kw
+  unfold RefineConfig.Refines at hR
+  rw [h] at hR
+  obtain ⟨hs, hdr, hstem, hmo⟩ := hR
+  have hk := C19.P_key_reaches_setting _ _ hs
+  have hd := C19.P_rdelta_rule _ _ hs
+  obtain ⟨k1, k2, k3, k4, k5, k6, _, k8, k9, _, _, _, _⟩ := hk
+  refine ⟨fun v hv => k1 v (by simp [RefineConfig.toK, hv]), fun v hv => k2 v (by simp [RefineConfig.toK, hv]),
+    fun v hv => k3 v (by simp [RefineConfig.toK, hv]), fun n h1 h2 => hd.2.1 n (by simp [RefineConfig.toK, h1]) (by simp [RefineConfig.toK, h2]),
+    ?_, fun v hv => k5 v (by simp [RefineConfig.toK, hv]), fun v hv => k6 v (by simp [RefineConfig.toK, hv]),
+    fun b hb => k8 b (by simp [RefineConfig.toK, hb, RefineConfig.toPy]), fun b hb => k9 b (by simp [RefineConfig.toK, hb, RefineConfig.toPy]),
+    fun s hs' => by rw [hstem, hs']; rfl, fun m hm => by rw [hmo, hm], hdr⟩
+  intro v hv
+  have := k4 (Config.PyVal.num v) (by simp [RefineConfig.toK, hv])
+  simpa [RefineConfig.viewSettings] using this
+
+/-- P (generated code): invalid choices are rejected with an error, never ignored -/
+theorem P_gen_invalid_rejected (kw : KwargsJ ℝ) :
+    (∀ s, kw.RealSpaceFunction = some s → s ≠ "g(r)" → s ≠ "G(r)" → s ≠ "GK(r)" → GenStog.construct kw = .error Err.valueError) := by
+  intro s hs h1 h2 h3
+  have hR := RefineConfig.construct_refines kw
+  unfold RefineConfig.Refines at hR
+  have hc : RefineConfig.rsfCode s = 3 := by simp [RefineConfig.rsfCode, h1, h2, h3]
+  have hbad := (C19.P_invalid_rejected (RefineConfig.toK kw)).1 3 (by simp [RefineConfig.toK, hs, hc]) (le_refl 3)
+  cases hcon : GenStog.construct kw with
+  | ok g => rw [hcon] at hR; rw [hR.1] at hbad; cases hbad
+  | error e =>
+    rw [hcon] at hR
+    rw [hR] at hbad
+    cases e <;> simp_all [RefineConfig.errOf]
 
 /-- the default file names, indexed as in `Config.filesOf` -/
 def fileName (stem : String) : Nat → String
